@@ -18,6 +18,7 @@
 (***************************************************************************)
 EXTENDS Big, FiniteSets
 SP == 32
+Lim0(s) == [j \in DOMAIN s |-> s[j]]
 IsDigit(c) == c >= 48 /\ c <= 57
 Dig(c) == c - 48
 MINUS == 45   PLUS == 43   DOT == 46   SLASH == 47   LE == 101   UE == 69   USCORE == 95
@@ -83,4 +84,38 @@ ParseAmount(s) ==
              k0 == IF neg THEN 2 ELSE 1
          IN  IF \E k \in DOMAIN s : s[k] = SLASH THEN ParseFraction(s, neg, k0)
              ELSE ParseDecimal(s, neg, k0)
+
+(***************************************************************************)
+(* Symbols the library GENERATES for reference units of derived types and  *)
+(* for units derived from units of the base types (the text form of a unit *)
+(* term): factors with positive exponent joined by a middle dot, then "/"  *)
+(* and the factors with negative exponent; |exponent| 2..9 as a superscript *)
+(* digit; a symbol that itself contains "/" contributes its part after the  *)
+(* "/" to the other side; "1" when nothing has a positive exponent.         *)
+(* items: sequence of [codes, e].                                           *)
+(***************************************************************************)
+MIDDOT == 183
+Super(n) == CASE n = 2 -> 178 [] n = 3 -> 179 [] n = 4 -> 8308 [] n = 5 -> 8309 [] n = 6 -> 8310
+              [] n = 7 -> 8311 [] n = 8 -> 8312 [] n = 9 -> 8313
+AbsI(n) == IF n < 0 THEN -n ELSE n
+WithExp(codes, e) == IF AbsI(e) <= 1 THEN codes ELSE codes \o <<Super(AbsI(e))>>
+RECURSIVE IndexOf(_, _, _)
+IndexOf(s, c, k) == IF k > Len(s) THEN 0 ELSE IF s[k] = c THEN k ELSE IndexOf(s, c, k + 1)
+NumPart(codes) == IF IndexOf(codes, SLASH, 1) = 0 THEN codes ELSE SubSeq(codes, 1, IndexOf(codes, SLASH, 1) - 1)
+DenPart(codes) == IF IndexOf(codes, SLASH, 1) = 0 THEN <<>> ELSE SubSeq(codes, IndexOf(codes, SLASH, 1) + 1, Len(codes))
+\* parts (code sequences) on the positive / negative side, in item order
+RECURSIVE SideParts(_, _, _)
+SideParts(items, k, pos) ==
+    IF k > Len(items) THEN <<>>
+    ELSE LET it == items[k]
+             a == IF (it.e > 0) = pos /\ it.e # 0 THEN <<WithExp(NumPart(Lim0(it.codes)), it.e)>> ELSE <<>>
+             b == IF DenPart(Lim0(it.codes)) # <<>> /\ (it.e < 0) = pos /\ it.e # 0
+                  THEN <<WithExp(DenPart(Lim0(it.codes)), it.e)>> ELSE <<>>
+         IN  a \o b \o SideParts(items, k + 1, pos)
+RECURSIVE JoinDot(_, _)
+JoinDot(parts, k) == IF k > Len(parts) THEN <<>>
+                     ELSE (IF k > 1 THEN <<MIDDOT>> ELSE <<>>) \o parts[k] \o JoinDot(parts, k + 1)
+GenSymbol(items) ==
+    LET p == SideParts(items, 1, TRUE)  n == SideParts(items, 1, FALSE)
+    IN  (IF p = <<>> THEN <<49>> ELSE JoinDot(p, 1)) \o (IF n = <<>> THEN <<>> ELSE <<SLASH>> \o JoinDot(n, 1))
 =============================================================================
